@@ -119,6 +119,29 @@ Theorem C05_source_reader_value : forall r c dev i, ReaderSrc.InputReader_value_
 Proof. exact SrcTie3P.InputReader_value_tie. Qed.
 
 
+(* ---- source tie, fourth wave (DESIGN 11.7): ActionBind::update regenerated from the Rust source (Generated/ActionSrc.v).
+   step:   the generated loop-body function equals the model's input step (`istep` = Model/Action.input_step without the
+           instrumentation log, with the source-derived combine_src / overwrite_src plugged in), Leibniz, for every tracker,
+           consume buffer, consumed set and binding;
+   update: the generated whole function (initial tracker, loop, action-level chain, convert, consume block, ActionData::update,
+           events gate) equals the model's action update `aupd` with the source-derived helpers, Leibniz;
+   model:  `aupd` / `istep` with the MODEL's helpers are Model/Action.action_update / input_step (projected to binding, stored
+           data, consumed set, events).  The statements are those of Proofs/SrcTie4P.v (step_tie, update_tie, aupd_model,
+           istep_model), restated here by their types; the only hypothesis is the meaning of `raw_value` (outside the subset). ---- *)
+From BEI Require Generated.ActionSrc Proofs.SrcTie4P.
+Theorem C05_source_action_step : ltac:(let t := type of SrcTie4P.step_tie in exact t).
+Proof. exact SrcTie4P.step_tie. Qed.
+
+Theorem C05_source_action_update : ltac:(let t := type of SrcTie4P.update_tie in exact t).
+Proof. exact SrcTie4P.update_tie. Qed.
+
+Theorem C05_source_action_model : ltac:(let t := type of SrcTie4P.aupd_model in exact t).
+Proof. exact SrcTie4P.aupd_model. Qed.
+
+Theorem C05_source_input_step_model : ltac:(let t := type of SrcTie4P.istep_model in exact t).
+Proof. exact SrcTie4P.istep_model. Qed.
+
+
 Print Assumptions C05_consume_hides.
 Print Assumptions C05_consume_frame.
 Print Assumptions C05_consume_all_hides.
@@ -136,3 +159,7 @@ Print Assumptions C05_app_judgement_transfer.
 Print Assumptions C05_source_consume.
 Print Assumptions C05_source_reset.
 Print Assumptions C05_source_reader_value.
+Print Assumptions C05_source_action_step.
+Print Assumptions C05_source_action_update.
+Print Assumptions C05_source_action_model.
+Print Assumptions C05_source_input_step_model.
